@@ -366,3 +366,49 @@ def repeat_script(w, st, res):
     compare_all()
     finish_queue(w, res)
     everyone()
+
+
+def conflict_script(w, st, res):
+    """Content conflicts (C01 C02 C08 C15 C19 on histories with `Conflict` outcomes): two pull requests touch
+    the same file; the conflict shows up on the destination (origin) or on a later integration branch; the
+    author resolves it the way the robot's message says; then everything is driven to the merge."""
+    rng = random.Random(st['seed'])
+    branches = w.init_branches
+    where = st['where']                      # 'origin' | 'wbranch'
+    w.pmap[1] = w.open_pr('bugfix/TEST-1', branches[0], file='shared.txt')
+    dst2 = branches[0] if where == 'origin' else branches[1]
+    # the other change to the same file lands first, on the destination (origin) or on a later branch (wbranch)
+    w.pmap[2] = w.open_pr('bugfix/TEST-2', dst2, file='shared.txt')
+    ev(w, 1, res)                             # integration branches of PR 1 exist before the conflict appears
+    gate(w, 2, res)
+    finish_queue(w, res)
+    for rnd in range(4):
+        r = ev(w, 1, res)
+        if r['status'] != 'Conflict':
+            break
+        # which branch is in conflict: read the robot's instructions the way a user would
+        src = w.pr(P(w, 1)).src_branch
+        last = [c.content['raw'] for c in w.mock.Comment.items if c.pull_request_id == P(w, 1)][-1]
+        if 'on **the feature branch**' in last:
+            w.resolve_conflict(P(w, 1), 'origin')
+        else:
+            import re as _re
+            m = _re.search(r'integration branch `(w/[^`]+)`', last)
+            wname = m.group(1)
+            ver = wname.split('/')[1]
+            dst = [b for b in branches if b.endswith('/' + ver)][0]
+            idx = branches.index(dst)
+            tgt = branches[branches.index(w.pr(P(w, 1)).dst_branch):]
+            j = tgt.index(dst)
+            prev = src if j == 1 else 'w/%s/%s' % (tgt[j - 1].split('/')[1], src)
+            w.resolve_conflict(P(w, 1), 'wbranch', wname=wname, dst=dst, prev=prev)
+    if st.get('then') == 'reset':
+        w.comment(P(w, 1), CONTRIB, '@robot reset')
+        ev(w, 1, res)
+        ev(w, 1, res)
+    gate(w, 1, res)
+    finish_queue(w, res)
+    ev(w, 1, res)
+    if st.get('then') == 'decline' and w.pr(P(w, 1)).status == 'OPEN':
+        w.decline(P(w, 1))
+        ev(w, 1, res)
